@@ -10,10 +10,16 @@ Decomposition (each part is a complete enumeration):
   jump   through the real Couplings.a: the values just below and just above every matching scale, in
          both directions, for every order/scheme/ratio assignment, must be related by the verified
          table applied with an independently written loop (right table, right nl, right logarithm,
-         right truncation, up vs down); a_em must not jump.
+         right truncation, up vs down); a_em must not jump.  Just behind the wall (squared scale 1e-10,
+         1e-7 and 3e-4 away: only a segment of zero length up to rounding may be skipped) the coupling must
+         have moved by beta(a) dt (independent beta table): a frozen coupling is 100 % off.
   path   Couplings.a(mu2, nf_to) for every reference patch / target scale / requested nf equals an
          independent walk along the walls (path from vf.ref.paths, one fresh single-patch object per
          segment, matching from the table).
+  kinv   renormalisation-group invariance end to end: with the mass numbers held fixed (what the runner
+         hands over: the pole mass, or the scale-invariant mass m(m) in the MSbar scheme) the coupling far
+         behind a wall may depend on the matching ratio k only beyond the working order: under scaling of
+         alpha_s(ref) by lambda = 2^-j the relative difference a(k)/a(k=1) - 1 must vanish like lambda^order.
 The evolution inside a patch is C15's subject.
 """
 
@@ -28,12 +34,14 @@ TECHNIQUE = "exact series algebra for the coefficient tables + complete lattice 
 LEVEL_TEXT = (
     "coefficient tables decided exactly (RG-derived logs, published constants); matching loop and "
     "path walk compared with an independent walker on the complete product of schemes, orders, "
-    "directions, ratio assignments, reference patches, target scales and requested nf"
+    "directions, ratio assignments, reference patches, target scales and requested nf; matching-scale independence "
+    "of the coupling behind each wall decided by measured scaling exponents"
 )
 LEVEL_NOTE = (
     "published constants and beta/gamma tables typed by hand (cross-checked at import: published logs "
-    "== RG-derived logs, exact forms == printed decimals); in the MSbar scheme the logarithm is "
-    "ln(mu^2/m_h(mu)^2) as in the cited literature; scales restricted to the lattice"
+    "== RG-derived logs, exact forms == printed decimals); table: in the MSbar scheme the logarithm is read as "
+    "ln(mu^2/m_h(mu)^2) as in the cited literature; kinv: the logarithm is what Couplings computes, ln(ratio) with the "
+    "mass number fixed; scales restricted to the lattice"
 )
 FLOOR_NONTRIVIAL = 10
 
@@ -122,6 +130,20 @@ def _factor(table, a, L, order):
     return f
 
 
+TOL_NEAR = 0.1
+TOL_NEAR_N3LO_EXPANDED = 0.25  # C15's recorded defect of expanded_n3lo is an error of the slope of up to 2 %
+
+
+def _beta_truncated(order, running, nf, a_s, a_em):
+    """d a_s / d ln mu^2 of the truncated RGE (independent table): -a^2 (sum_{j<n} beta_j a^j + a_em beta_(2,1))."""
+    from vf.ref import c20_tables as tab
+
+    b = sum(float(tab.beta_qcd((j + 2, 0), nf)) * a_s**j for j in range(order[0]))
+    if order[1] >= 1:
+        b += a_em * float(tab.beta_qcd((2, 1), nf))
+    return -a_s * a_s * b
+
+
 def _eval_jump(case):
     import numpy as np
 
@@ -132,6 +154,7 @@ def _eval_jump(case):
     running, alphas = case["running"], case["alphas"]
     res = Result()
     mx = 0.0
+    mxn = mxn4 = 0.0
     n = 0
     crossed_nontrivially = 0
     for nl in (3, 4, 5):
@@ -170,13 +193,37 @@ def _eval_jump(case):
                 )
             if dst[1] != src[1]:
                 res.fail("Couplings.a/jump/a_em-changes", f"{where}: a_em {src[1]!r} -> {dst[1]!r}")
+            # just behind the wall (not on it): the coupling must have moved as its RGE says
+            s_ = 1.0 if direction == "up" else -1.0
+            nf_behind = nl + 1 if direction == "up" else nl
+            for f in (1 + s_ * 1e-10, 1 + s_ * 1e-7, 1 + s_ * 3e-4, 1 - s_ * 3e-4):
+                try:
+                    near = np.array(c.a(thr2 * f, nf_behind), dtype=float)
+                except Exception as e:  # noqa
+                    res.fail(sig + "/raises", f"{where} then mu2=wall*{f!r}: {type(e).__name__}: {e}")
+                    continue
+                want_change = _beta_truncated(order, running, nf_behind, dst[0], dst[1]) * math.log(f)
+                devn = abs((near[0] - dst[0]) / want_change - 1.0)
+                n3lo_exp = method == "expanded" and order[0] == 4
+                if n3lo_exp:
+                    mxn4 = max(mxn4, devn)
+                else:
+                    mxn = max(mxn, devn)
+                tol = TOL_NEAR_N3LO_EXPANDED if n3lo_exp else TOL_NEAR
+                if not devn <= tol:
+                    res.fail(
+                        f"Couplings.a/near-wall/{direction}",
+                        f"{where}: a_s(wall*{f!r}, nf={nf_behind}) - a_s(wall, nf={nf_behind}) = {near[0] - dst[0]!r} but "
+                        f"beta(a) ln({f!r}) = {want_change!r} (relative deviation {devn:.3e} > {tol}); only a segment of zero length "
+                        "up to rounding (1e-14) may be skipped",
+                    )
             # continuity: LO always, NLO for mu = m
             if (order[0] == 1 or (order[0] == 2 and k == 1.0)) and dst[0] != src[0]:
                 res.fail(
                     f"Couplings.a/continuity/order={order[0]}",
                     f"{where}: {src[0]!r} -> {dst[0]!r}, must be continuous with unit ratio",
                 )
-    res.info = {"max_rel_dev_jump": mx, "crossings": n}
+    res.info = {"max_rel_dev_jump": mx, "crossings": n, "max_rel_dev_change_near_wall": mxn, "max_rel_dev_change_near_wall_expanded_n3lo": mxn4}
     res.nontrivial = crossed_nontrivially > 0 or order[0] == 1
     res.outcome = f"jump/order={order[0]}/discontinuous={crossed_nontrivially > 0}"
     return res
@@ -216,6 +263,9 @@ def _walk(case, target, walls):
     return a, nmatch
 
 
+TOL_PATH_TIGHT = 1e-11  # measured maximum 4.0e-13 (thorough), 2.6e-14 (quick)
+
+
 def _eval_path(case):
     import warnings
 
@@ -228,6 +278,10 @@ def _eval_path(case):
     walls = [m * r for m, r in zip(M2, ratios)]
     res = Result()
     scales = sorted({1.2**2, 3.0**2, 50.0**2, 500.0**2, mu_ref**2} | set(walls) | {0.9 * w for w in walls} | {1.1 * w for w in walls})
+    # matching scales that are not ordered like the masses: there is no default number of flavours (nf_default
+    # refuses); with explicit nf the path still steps quark by quark over that quark's scale
+    ordered = walls == sorted(walls)
+    nf_tos = (None, 3, 4, 5, 6) if ordered else (3, 4, 5, 6)
     mx = 0.0
     npaths = 0
     nmatch_total = 0
@@ -240,7 +294,7 @@ def _eval_path(case):
             res.fail("Couplings/raises", f"{case}: {type(e).__name__}: {e}")
             return res
         for mu2 in scales:
-            for nf_to in (None, 3, 4, 5, 6):
+            for nf_to in nf_tos:
                 sig = f"Couplings.a/path/order={order[0]}"
                 where = f"scheme={scheme} order={order} method={method} ratios={ratios} ref={case['ref']} target=({mu2!r},{nf_to})"
                 try:
@@ -264,20 +318,127 @@ def _eval_path(case):
                 mx = max(mx, dev)
                 if not dev <= 1e-9:
                     res.fail(sig, f"{where}: Couplings.a = {got.tolist()}, independent walk along the walls = {want.tolist()}")
+                elif not dev <= TOL_PATH_TIGHT:
+                    res.fail(sig + "/tight", f"{where}: Couplings.a = {got.tolist()}, independent walk along the walls = {want.tolist()} (relative deviation {dev:.3e} > {TOL_PATH_TIGHT})")
     res.info = {"max_rel_dev_path": mx, "paths": npaths, "matchings": nmatch_total}
-    res.outcome = f"path/max-matchings={max(shapes) if shapes else 0}"
+    res.outcome = f"path/max-matchings={max(shapes) if shapes else 0}" + ("" if ordered else "/unordered-walls")
     res.nontrivial = nmatch_total > 0
     return res
 
 
+# ------------------------------------------------------------------------------------------ kinv
+KINV_NLAMBDA = 10
+KINV_FLOOR = 1e-14
+KINV_ALPHAS = 0.2
+
+
+def _asymptotic_exponent(rs, floor):
+    """Local exponents log2(r_j / r_(j+1)) of |r_j| (lambda = 2^-j) and the pair of consecutive ones at the smallest
+    couplings that agree to 0.15 (None if there is no such pair)."""
+    seq = [(j, abs(r)) for j, r in enumerate(rs) if r is not None and abs(r) >= floor]
+    exps = [(j1, math.log2(r0 / r1)) for (j0, r0), (j1, r1) in zip(seq, seq[1:]) if j1 == j0 + 1]
+    for i in range(len(exps) - 1, 0, -1):
+        if exps[i][0] == exps[i - 1][0] + 1 and abs(exps[i][1] - exps[i - 1][1]) <= 0.15:
+            return exps, [exps[i - 1][1], exps[i][1]]
+    return exps, None
+
+
+def _eval_kinv(case):
+    import warnings
+
+    import mpmath as mp
+    import numpy as np
+
+    from eko import couplings as ec
+    from vf.ref import c20_tables as tab
+    from vf.ref.c15_mk import make_couplings
+
+    scheme, n, method, wall, direction, kk = case["scheme"], case["order"], case["method"], case["wall"], case["direction"], case["k"]
+    res = Result()
+    nl = wall + 3
+    m = math.sqrt(M2[wall])
+    # reference in the patch in front of the wall, target far behind it (both fixed, clear of the moved wall)
+    if direction == "up":
+        ref, tgt = (0.6 * m, nl), ((3.0 * m) ** 2, nl + 1)
+    else:
+        ref, tgt = (3.0 * m, nl + 1), ((0.6 * m) ** 2, nl)
+    where = f"scheme={scheme} order=({n},0) method={method} wall of quark {nl + 1} (m^2={M2[wall]!r}) {direction} ref={ref} target={tgt} k={kk} vs k=1, alpha_s(ref)={KINV_ALPHAS}*2^-j"
+    sig = f"Couplings.a/matching-scale-independence/{scheme}/order={n}"
+    rs = []
+    with warnings.catch_warnings():
+        warnings.simplefilter("ignore")
+        for j in range(KINV_NLAMBDA):
+            vals = []
+            for r in (1.0, kk):
+                ratios = [1.0, 1.0, 1.0]
+                ratios[wall] = r
+                try:
+                    c = make_couplings((n, 0), False, method, ref, KINV_ALPHAS * 2.0**-j, 0.0075, M2, ratios, scheme)
+                    vals.append(float(c.a(tgt[0], tgt[1])[0]))
+                except Exception as e:  # noqa
+                    res.fail(sig + "/raises", f"{where} j={j} ratio={r}: {type(e).__name__}: {e}")
+                    return res
+            rs.append(vals[1] / vals[0] - 1.0 if all(np.isfinite(vals)) and vals[0] > 0 else None)
+    exps, last = _asymptotic_exponent(rs, KINV_FLOOR)
+    shown = (
+        f"{where}: a_s(k)/a_s(1) - 1 for j=0..{KINV_NLAMBDA - 1}: {[None if r is None else float('%.4e' % r) for r in rs]}; "
+        f"local exponents {[round(e, 2) for _, e in exps]}"
+    )
+    info = {}
+    if last is None:
+        res.info = {"residuals": rs}
+        res.nontrivial = False
+        res.outcome = f"kinv/order={n}/inconclusive"
+        return res
+    demand = float(n)
+    if last[-1] >= demand - 0.25:
+        info["max_exponent_shortfall_kinv"] = demand - last[-1]
+    else:
+        # the one way of failing that is understood: the a^2 L coefficient of the table belongs to L = ln(mu^2/m(mu)^2)
+        # (running mass), while Couplings evaluates L = ln(ratio) with the mass number fixed, for which
+        # renormalisation-group invariance needs beta_1^(nl) - beta_1^(nl+1):
+        #     lim (a(k)/a(1) - 1) / a_ref^2 = -/+ (required - table) ln k        (up / down)
+        from vf.ref import c16_decoupling as dec
+
+        up = np.array(ec.compute_matching_coeffs_up(scheme, nl), dtype=float)
+        required = float(tab.beta_qcd((3, 0), nl) - tab.beta_qcd((3, 0), nl + 1))
+        running_mass_c21 = float(dec.coupling_up_published("MSBAR", nl)[(2, 1)])  # literature, not eko's table
+        model = (-1.0 if direction == "up" else 1.0) * (required - running_mass_c21) * math.log(kk)
+        a_ref = [KINV_ALPHAS * 2.0**-j / (4 * math.pi) for j in range(KINV_NLAMBDA)]
+        coeff = [None if r is None else r / a**2 for r, a in zip(rs, a_ref)]
+        measured = None if coeff[-1] is None or coeff[-2] is None else 2 * coeff[-1] - coeff[-2]
+        pinned = (
+            scheme == "MSBAR"
+            and n >= 3
+            and abs(last[-1] - 2.0) <= 0.1
+            and measured is not None
+            and model != 0.0
+            and abs(measured / model - 1.0) <= 0.02
+        )
+        if pinned:
+            sig += "/table-for-running-mass-used-with-fixed-mass"
+            info["max_rel_dev_pinned_running_mass_log"] = abs(measured / model - 1.0)
+        res.fail(
+            sig,
+            f"{shown}; the asymptotic pair is {[round(e, 2) for e in last]}, its last member must be >= {demand - 0.25} (the dependence on the "
+            f"matching ratio must be beyond the working order: relative lambda^{n}). lim (a(k)/a(1)-1)/a_ref^2 measured {measured!r}; "
+            f"the running-mass coefficient c21 = {running_mass_c21!r} (eko's table has {float(up[2, 1])!r}) where a fixed mass needs "
+            f"beta_1^({nl}) - beta_1^({nl + 1}) = {required!r} predicts {model!r}",
+        )
+    res.info = dict(info, residuals=rs)
+    res.outcome = f"kinv/order={n}/exponent={round(last[-1])}"
+    return res
+
+
 def evaluate(case):
-    return {"table": _eval_table, "jump": _eval_jump, "path": _eval_path}[case["kind"]](case)
+    return {"table": _eval_table, "jump": _eval_jump, "path": _eval_path, "kinv": _eval_kinv}[case["kind"]](case)
 
 
 RATIO_SETS_QUICK = [[0.5, 1.0, 2.0], [2.0, 0.5, 1.0], [1.0, 2.0, 0.5], [1.0, 1.0, 1.0]]
 RATIO_SETS_THOROUGH = RATIO_SETS_QUICK + [[0.25, 4.0, 0.7], [4.0, 1.5, 0.25], [1.5, 0.7, 4.0]]
 REFS = [[1.3, 3, 0.35], [3.0, 4, 0.25], [91.2, 5, 0.118], [300.0, 6, 0.10], [91.2, 4, 0.118], [3.0, 5, 0.25], [4.92, 5, 0.21], [10.0, None, 0.18]]
 ORDERS_QCD = [[1, 0], [2, 0], [3, 0], [4, 0]]
+RATIOS_UNORDERED = [4.0, 0.25, 1.0]
 
 
 def run(ctx):
@@ -297,6 +458,14 @@ def run(ctx):
             methods = ["expanded", "exact"]
         for method in methods:
             cases.append({"kind": "path", "scheme": s, "order": o, "ratios": r, "method": method, "running": qed, "ref": ref[:2], "alphas": ref[2]})
+    # matching scales not ordered like the masses (mu_b^2 = 6.05 < mu_c^2 = 9.12): explicit nf only
+    for s, o, ref in itertools.product(SCHEMES, [[2, 0], [4, 0], [3, 1]], [r for r in REFS if r[1] is not None]):
+        for method in ["expanded", "exact"] if thorough else ["expanded"]:
+            cases.append({"kind": "path", "scheme": s, "order": o, "ratios": RATIOS_UNORDERED, "method": method, "running": o[1] > 0, "ref": ref[:2], "alphas": ref[2]})
+    # matching-scale independence with fixed mass numbers
+    for s, n, wall, direction, k in itertools.product(SCHEMES, [1, 2, 3, 4], [0, 1, 2], ["up", "down"], [0.5, 2.0]):
+        for method in ["expanded", "exact"] if (thorough or wall == 1) else ["expanded"]:
+            cases.append({"kind": "kinv", "scheme": s, "order": n, "method": method, "wall": wall, "direction": direction, "k": k})
     ctx.run_cases(cases, evaluate)
     ctx.rule = (
         "table: 2 schemes x nl 3,4,5 (all 16 entries of the up table and of the down table); "
@@ -304,12 +473,20 @@ def run(ctx):
         "0.25/0.7/1.5/4) x method x alpha_s, each case crossing the 3 thresholds in both directions; "
         "path: the same product x 8 reference points (one per patch, two with non-default nf_ref, one on a wall, one "
         "with nf_ref=None), each case asking 16+ target scales (below/on/above every wall, far points) x nf_to in "
-        "{None,3,4,5,6}; non-trivial = a matching was applied (jump: the coupling is discontinuous or order 1)"
+        "{None,3,4,5,6}, plus the ratio assignment 4/0.25/1 (matching scales not ordered like the masses) for 3 orders x 7 "
+        "references with explicit nf; jump cases also ask 4 scales just behind every wall (squared scale x (1 + 1e-10), (1 + 1e-7), (1 +- 3e-4)); "
+        "kinv: 2 schemes x QCD order 1-4 x 3 walls x up/down x k in {0.5,2} x method (quick: exact only for the bottom wall), "
+        "10 scalings of alpha_s(ref) each; "
+        "non-trivial = a matching was applied (jump: the coupling is discontinuous or order 1; kinv: an asymptotic exponent was measured)"
     )
     ctx.assumptions += [
         "MSbar: L = ln(mu^2/m_h(mu)^2), i.e. the masses handed to Couplings are the running masses at the matching scale "
         "(Schroder-Steinhauser / Chetyrkin-Kniehl-Steinhauser convention quoted by the code)",
         "c30 compared with 2e-5 relative tolerance (the code carries 6 printed digits); rational entries to 1e-12",
-        "path walk compared to 1e-9 relative for couplings with alpha_s <= 0.5 (beyond that only finiteness class)",
+        "path walk compared to 1e-9 relative (signature .../tight: 1e-11) for couplings with alpha_s <= 0.5 (beyond that only finiteness class)",
+        "near-wall: change of a_s over a segment of relative length 1e-10 / 1e-7 / 3e-4 vs beta(a) dt of the truncated RGE to 10 % (N3LO expanded: 25 %)",
+        "kinv: the mass numbers handed to Couplings are held fixed while the ratio varies (pole mass / scale-invariant MSbar mass m(m), "
+        "as delivered by eko.io.runcards.masses to eko.runner.commons.couplings); asymptotic window as in C15 (pair of local exponents "
+        "agreeing to 0.15, residuals below 1e-14 skipped); demand: exponent >= order - 0.25",
         "evolution inside a patch is trusted here (decided by C15)",
     ]
